@@ -295,8 +295,25 @@ OVERRIDE = {'ID': 'id1', 'INTEGER': '1', 'FLOAT': '1.5', 'QUOTE_STRING': "'s'", 
             'VARIABLE': '@v', 'SYSTEM_VARIABLE': '@@sv'}
 
 
-def representatives(lexer_cls):
-    """{terminal: token value as the real lexer produces it for one lexeme of that terminal}"""
+def respell(word, spelling):
+    """another letter case of a keyword lexeme: 'lower' or 'mixed' (lower / upper alternating, starting lower)"""
+    if spelling == 'lower':
+        return word.lower()
+    if spelling == 'mixed':
+        out, up = '', False
+        for ch in word:
+            if ch.isalpha():
+                out += ch.upper() if up else ch.lower()
+                up = not up
+            else:
+                out += ch
+        return out
+    return word
+
+
+def representatives(lexer_cls, spelling=None):
+    """{terminal: token value as the real lexer produces it for one lexeme of that terminal}; with spelling = 'lower' / 'mixed' the
+    lexemes of word tokens (keywords, word operators) are written in that letter case where the live lexer reads it as the same token"""
     rep, lexemes = {}, {}
     lx = lexer_cls()
     for name, rule in lexer_cls._rules:
@@ -310,6 +327,8 @@ def representatives(lexer_cls):
             cands.append(_sample(pat))
         except Exception:  # noqa
             pass
+        if spelling and name not in OVERRIDE:
+            cands = [respell(c, spelling) for c in cands if any(ch.isalpha() for ch in c)] + cands
         for c in cands:
             try:
                 toks = list(lx.tokenize(c))
